@@ -12,11 +12,11 @@ from vlib.wsgi import make_environ, call_app
 ID = 'C15'
 LEVEL = 'exploration'
 RULE = ('round trip: 1-3 cookies (names over the legal cookie-name alphabet; plain values = non-empty text up to U+00FF incl. separators, quotes, '
-        'backslash, controls, Latin-1; signed values = nested picklable data, secrets = non-empty text) set through response.set_cookie inside a '
+        'backslash, controls, Latin-1; signed values = nested picklable data, secrets = non-empty text or bytes) set through response.set_cookie inside a '
         'handler, the emitted Set-Cookie header values are handed back verbatim by a harness "browser" as one Cookie header, and read with '
         'request.get_cookie / request.cookies. Tampering, per signed cookie value S = "!sig?msg": every single-byte substitution position x sampled '
         'replacement bytes (all 64 base64 characters at the last significant character of sig and msg), every deletion, every truncation length, '
-        'insertion of non-alphabet / padding / whitespace bytes at every position, signature swapped with another cookie, other secret, other name, '
+        'insertion of non-alphabet / padding / whitespace bytes at every position, signature swapped with another cookie, other secret, other name, signatures made with related keys (empty, NUL runs, prefixes / suffixes / single bytes / case variants of the secret), '
         'appended bytes, and canary payloads (pickle whose __reduce__ calls a recorder) under wrong / missing / unkeyed signatures. Oracle: '
         'untampered -> value equal; a presented value that is not a string signed with that secret for that name -> default, and neither the '
         'pickle.loads proxy nor a canary fired. Concurrency: a thread signing with secret NEW against a thread verifying a cookie signed with OLD under NEW (and a genuine one), every single-preemption schedule under the deterministic scheduler. Non-trivial: round trip = value with a character outside the legal-unquoted set or signed nested '
@@ -45,7 +45,8 @@ PLAIN_WIDE = st.text(st.characters(exclude_categories=['Cs']), min_size=1, max_s
 _leaf = st.one_of(st.none(), st.booleans(), st.integers(-2**70, 2**70), st.floats(allow_nan=False), st.text(max_size=8), st.binary(max_size=8))
 DATA = st.recursive(_leaf, lambda ch: st.one_of(st.lists(ch, max_size=3), st.lists(ch, max_size=3).map(tuple),
                                                 st.dictionaries(st.one_of(st.text(max_size=3), st.integers(0, 9)), ch, max_size=3)), max_leaves=8)
-SECRET = st.one_of(st.sampled_from(['s', 'secret', 'k e y', 'é', '日本', '0', '\x00']), st.text(min_size=1, max_size=8))
+SECRET = st.one_of(st.sampled_from(['s', 'secret', 'k e y', 'é', '日本', '0', '\x00']), st.text(min_size=1, max_size=8),
+                   st.sampled_from([b'secret', b'\x01\x02@', b'k', b'\x00\x10 ', b'\xff\xfe']), st.binary(min_size=1, max_size=6))
 
 
 def to_plain(x):
@@ -307,10 +308,24 @@ def check_tamper(ctx, case, full=False):
     variants = list(tamper_variants(S, sig2, full or ctx.tier == 'thorough'))
     variants.append(('other_secret', Sf))
     variants.append(('other_name', S2))
+    # related-key forgeries: the same payload signed (by the harness' own signer) with keys derived from the secret or trivially guessable
+    def _sign(key, msg):
+        kb = key if isinstance(key, bytes) else key.encode('utf8')
+        return base64.b64encode(hmac.new(kb, msg.encode(), digestmod=hashlib.md5).digest()).decode()
+    sb = secret if isinstance(secret, bytes) else secret.encode('utf8')
+    related = [b'', b'\0', b'\0' * 16, b'\0' * 64, sb[:1], sb[1:], sb[:-1], sb + b'\0', sb + sb, sb[::-1], sb.lower(), sb.upper(), sb.strip(), b' ' + sb, repr(secret).encode(),
+               str(list(sb)).encode()] + [bytes([x]) for x in sb[:8]] + [b'\0' * x for x in sb[:8]]
+    msg0 = S[S.index('?') + 1:]
+    # (HMAC pads a key with NUL bytes up to its block size: keys that differ only in trailing NULs are the same key)
+    related = [rk for rk in related if rk.rstrip(b'\0') != sb.rstrip(b'\0')]
+    for rk in related:
+        variants.append(('related_key', '!' + _sign(rk, msg0) + '?' + msg0))
     # canary payloads: attacker-made pickles under signatures that are not valid for `secret`
     msg_c = base64.b64encode(pickle.dumps((name, Canary('c1')), -1)).decode()
     sig = S[1:S.index('?')]
-    bad_key_sig = base64.b64encode(hmac.new(osecret.encode('utf8'), msg_c.encode(), digestmod=hashlib.md5).digest()).decode()
+    bad_key_sig = base64.b64encode(hmac.new(osecret if isinstance(osecret, bytes) else osecret.encode('utf8'), msg_c.encode(), digestmod=hashlib.md5).digest()).decode()
+    for rk in related[:6]:
+        variants.append(('canary_related_key', '!' + _sign(rk, msg_c) + '?' + msg_c))
     for label, sg in (('canary_orig_sig', sig), ('canary_no_sig', ''), ('canary_garbage_sig', 'AAAAAAAAAAAAAAAAAAAAAA=='), ('canary_wrong_key_sig', bad_key_sig),
                       ('canary_md5_sig', base64.b64encode(hashlib.md5(msg_c.encode()).digest()).decode())):
         variants.append((label, '!' + sg + '?' + msg_c))
